@@ -487,6 +487,8 @@ fn generate_tiny(rng: &mut Rng) -> (HistScenario, String) {
         banner: None,
         crlf: false,
         tabs: false,
+        col_pad: 0,
+        line_pad: 0,
     };
     let uses = |ty: &str| {
         vec![gen::Member::Method {
@@ -799,7 +801,11 @@ pub fn generate(rng: &mut Rng, prop: Prop, thorough: bool) -> (HistScenario, Str
             5 => {
                 let p = rng.pick(&st.paths).clone();
                 let d = st.fresh_doc(rng);
-                let c = st.content_from(rng, d);
+                let c = if rng.pct(6) {
+                    Content::Raw(rng.pick(&["", " ", "\n", "\n\n\t "]).to_string()) // an empty / blank file
+                } else {
+                    st.content_from(rng, d)
+                };
                 let tail: Vec<u8> = match rng.below(16) {
                     0 => vec![0xff],
                     1 => b"\n// caf\xc3".to_vec(), // multi-byte sequence cut by EOF
@@ -830,7 +836,17 @@ pub fn generate(rng: &mut Rng, prop: Prop, thorough: bool) -> (HistScenario, Str
                 all.extend_from_slice(&tail);
                 disk_bytes.insert(disk_slot(&p), all);
                 st.disk.insert(disk_slot(&p), c.clone());
-                steps.push(mk(rng, Op::DiskWrite { path: p, content: c, tail }, "disk_write"));
+                let reload = rng.pct(40);
+                steps.push(mk(rng, Op::DiskWrite { path: p.clone(), content: c.clone(), tail: tail.clone() }, "disk_write"));
+                if reload {
+                    // save, then reload at once (the editor's save + the tool's reload)
+                    let ok = std::str::from_utf8(&tail).is_ok();
+                    if ok {
+                        st.live.insert(pb(&p), (p.clone(), if tail.is_empty() { c.clone() } else { Content::Raw(c.text()) }));
+                    }
+                    let arg = *rng.pick(&ArgKind::ALL);
+                    steps.push(mk(rng, Op::AddFile { path: p, arg, plan: FaultPlan::default(), passthrough: passthrough_run }, "add_file:reload_after_save"));
+                }
             }
             7 => {
                 // the same content again (file saved unchanged), or an earlier version comes back
